@@ -19,14 +19,13 @@ Open Scope Z_scope.
 (* a step of cfg["pipeline"]: is its name "multiscale[.suffix]", and its optional parameters *)
 Record step_cfg := mkStepCfg { sc_is_msc : bool; sc_num_scales : option Z; sc_scale_factor : option Z }.
 
-Definition PYRAMID_NUM_SCALES : Z := 2.
-Definition PYRAMID_SCALE_FACTOR : Z := 2.
 Definition dflt (o : option Z) (d : Z) : Z := match o with Some z => z | None => d end.
 
-(* the first multiscale step of the pipeline section decides; (1, 1) without one *)
-Definition read_multiscale_params (steps : list step_cfg) : Z * Z :=
+(* the first multiscale step of the pipeline section decides; (1, 1) without one.
+   [dn], [dsf] = _PYRAMID_NUM_SCALES, _PYRAMID_SCALE_FACTOR of the multiscale class (Gen/MsConst.v) *)
+Definition read_multiscale_params (dn dsf : Z) (steps : list step_cfg) : Z * Z :=
   match filter sc_is_msc steps with
-  | s :: _ => (dflt (sc_num_scales s) PYRAMID_NUM_SCALES, dflt (sc_scale_factor s) PYRAMID_SCALE_FACTOR)
+  | s :: _ => (dflt (sc_num_scales s) dn, dflt (sc_scale_factor s) dsf)
   | [] => (1, 1)
   end.
 
